@@ -208,3 +208,7 @@ PROOFS = [
     {'name': 'CalculateEncodedSize', 'enforce': 'Base64Encoder_CalculateEncodedSize', 'props': ['C20', 'C03']},
     {'name': 'Encode', 'enforce': 'Base64Encoder_Encode', 'replace': ['Base64Encoder_EncodeByte', 'Base64Encoder_CalculateEncodedSize'], 'loops': 'contracts', 'props': ['C20'], 'cost': 10},
 ]
+# thorough tier: the real coder on every alphabet index, every character code and byte strings of every length 0..12 (three fillings)
+NATIVE_SWEEPS = [{'name': 'base64_roundtrip', 'driver': 'b64', 'props': ['C20'], 'what': 'Base64Encoder::Encode + Base64Decoder::Decode', 'include_cc': ('VS_BASE64_CC', 'src/common/base64.cc'),
+                  'argvs': [['encbyte', v] for v in range(64)] + [['decchar', c] for c in range(256)]
+                           + [['rt', ''.join('%02x' % ((f + 37 * i) & 0xff) for i in range(n)) or '00'[:0] or '-'] for n in range(0, 13) for f in (0x00, 0x7f, 0xfb)]}]
